@@ -146,12 +146,28 @@ def finish(ctx):
     return 0
 
 
+WORKER_MEMORY_LIMIT = int(os.environ.get("VERIF_WORKER_MEM_GB", "6")) << 30
+
+
 def _init_worker():
     sys.setrecursionlimit(10000)
+    # A mutated stream can declare an enormous picture: cap every pool worker's address space so that the
+    # allocation fails with MemoryError inside the worker instead of the kernel's OOM killer shooting workers
+    # (which would leave the pool waiting for ever).
+    try:
+        import resource
+
+        resource.setrlimit(resource.RLIMIT_AS, (WORKER_MEMORY_LIMIT, WORKER_MEMORY_LIMIT))
+    except Exception:  # noqa
+        pass
 
 
 def pmap(fn, items, procs=None, chunksize=None):
-    """Parallel map preserving order; fn must be a module-level function."""
+    """Parallel map preserving order; fn must be a module-level function.  A worker that dies (killed, crashed
+    interpreter) raises RuntimeError here -- a machinery failure (exit 2) -- instead of hanging."""
+    from concurrent.futures import ProcessPoolExecutor
+    from concurrent.futures.process import BrokenProcessPool
+
     items = list(items)
     procs = procs or min(16, os.cpu_count() or 1)
     if len(items) < 8 or procs == 1:
@@ -159,8 +175,11 @@ def pmap(fn, items, procs=None, chunksize=None):
     if chunksize is None:
         chunksize = max(1, min(2000, len(items) // (procs * 8)))
     ctx = multiprocessing.get_context("fork")
-    with ctx.Pool(procs, initializer=_init_worker) as pool:
-        return pool.map(fn, items, chunksize)
+    try:
+        with ProcessPoolExecutor(max_workers=procs, mp_context=ctx, initializer=_init_worker) as ex:
+            return list(ex.map(fn, items, chunksize=chunksize))
+    except BrokenProcessPool as e:
+        raise RuntimeError("a pool worker died while running %s (out of memory / killed): %s" % (getattr(fn, "__name__", fn), e))
 
 
 def exc_signature(e, tb=None):
